@@ -1,11 +1,11 @@
 #!/bin/bash
 # apply a seeded change to /repo, run the property's check (and optionally others), undo. usage: try_seed.sh C06 [check ids...]
 id=$1; shift; checks=${@:-$id}
-patch=/verif/seeded/$id/patch.diff; [ -f $patch ] || patch=/tmp/seed/$id/seed/patch.diff
+base=${SEEDBASE:-/tmp/seed}; patch=$base/$id/seed/patch.diff; [ -f $patch ] || patch=/verif/seeded/$id/patch.diff
 git -C /repo diff --quiet || { echo "/repo not clean"; exit 2; }
 git -C /repo apply $patch || { echo "patch does not apply"; exit 2; }
 for c in $checks; do
-  timeout 1200 /verif/check $c --no-evidence > /tmp/seed/$id.$c.out 2>&1; rc=$?
-  echo "check $c exit=$rc"; grep "^VIOLATED\|^ANALYSIS" /tmp/seed/$id.$c.out | cut -c1-330 | head -4
+  timeout 1200 /verif/check $c --no-evidence > $base/$id.$c.out 2>&1; rc=$?
+  echo "check $c exit=$rc"; grep "^VIOLATED\|^ANALYSIS" $base/$id.$c.out | cut -c1-330 | head -4
 done
 git -C /repo checkout -- . ; git -C /repo diff --quiet && echo "/repo restored"
